@@ -11,6 +11,8 @@ Injection modes: the same executions through the evaluators / providers / resolv
              every execution (a provider is free to do that; nothing in the documentation asks for a fresh object per call)
   jsonfile   user-style method based RC / FC evaluators plus the library's JsonFileHintsProvider and JsonFilePackageResolver
              reading files written for this execution (package file alternately as dictionary and as list of mappings)
+  formats-general-first / formats-specific-first   package resolver and hints provider registered for a general (UTILMD, decoy
+             answers) and a specific format (UTILMDS, real answers) in one provider, in either order; data in the specific format
   methods    user-style evaluators: RcEvaluator / FcEvaluator subclasses with real evaluate_<key> methods that read
              PER-INSTANCE state; a new instance of the same classes is created and injected per execution
 """
@@ -141,6 +143,21 @@ def run(mode, make_coro, rc=None, fc=None, hints=None, packages=None):
             _SHARED_DATA = EvaluatableData(body=None, edifact_format=I.FMT, edifact_format_version=I.FMTV)
         _configure(_cer_evaluators, lambda: _SHARED_DATA)
         _SHARED_DATA.body = ContentEvaluationResultSchema().dump(make_cer(rc, fc, hints, packages or {}))
+        return I.run(make_coro(), I.Env())
+    if mode.startswith("formats-"):
+        # ONE provider serving a general format (UTILMD, decoy answers) and a specific one (UTILMDS, the real answers), registered in
+        # either order; the evaluatable data is in the specific format
+        from efoli import EdifactFormat
+
+        def both(cls, real_arg, decoy_arg):
+            real, decoy = cls(real_arg), cls(decoy_arg)
+            real.edifact_format, real.edifact_format_version = EdifactFormat.UTILMDS, I.FMTV
+            decoy.edifact_format, decoy.edifact_format_version = EdifactFormat.UTILMD, I.FMTV
+            return [decoy, real] if mode == "formats-general-first" else [real, decoy]
+
+        evaluators = both(DictBasedPackageResolver, dict(packages or {}), {k: "[998]" for k in (packages or {})}) + \
+            both(DictBasedHintsProvider, dict(hints or {}), {k: "falscher Hinweis" for k in (hints or {})})
+        _configure(evaluators, lambda: EvaluatableData(body=None, edifact_format=EdifactFormat.UTILMDS, edifact_format_version=I.FMTV))
         return I.run(make_coro(), I.Env())
     if mode in ("methods", "jsonfile"):
         rc_cls, fc_cls = _method_based(list((rc or {}).keys()), list((fc or {}).keys()))
